@@ -216,7 +216,7 @@ func among(texts ...string) func(g *ref.Game, mv ref.Move) bool {
 func checkC08(c *harness.Check) {
 	mustAnchors(c)
 	depth := c.Pick(8, 10)
-	c.Rule = fmt.Sprintf("all operation words of length <= %d over {push m (root-specific alphabet of <=4 moves incl. castling, e.p., promotion, captures, shuffles; roots incl. two set up with full-move number 0 and one whose boards use the zero-value Zobrist table under which every position hashes to 0), pop (never below a fork point), fork (<=3 live boards), switch i}; every word is replayed on fresh real boards and after its last operation EVERY live board's getters (position, side, clock, ply, full moves, has-castled x2, last and second-to-last move, HasMoved(1/2/all), hash vs scratch, not-drawn result) are compared with the reference multi-board model; after a push the draw oracle of C05 runs on that board. A long-lived board: after a complete 4-ply walk from the start position (about 200 000 pushes and pops, over 70 000 distinct positions) on the board itself / on a fork of it, everything reported is unchanged and the knight shuffle played before the walk, repeated after it, is reported as a three-fold repetition. The forks an engine hands out (Engine.Board) on seven games incl. drawn ones: moves, take-backs and adjudication on them leave the engine's game untouched and vice versa. distinct_nontrivial = distinct canonical states (sorted model snapshots of all live boards)", depth)
+	c.Rule = fmt.Sprintf("all operation words of length <= %d over {push m (root-specific alphabet of <=4 moves incl. castling, e.p., promotion, captures, shuffles; roots incl. two set up with full-move number 0 and one whose boards use the zero-value Zobrist table under which every position hashes to 0), pop (never below a fork point), fork (<=3 live boards), switch i}; every word is replayed on fresh real boards and after its last operation EVERY live board's getters (position, side, clock, ply, full moves, has-castled x2, last and second-to-last move, HasMoved(1/2/all), hash vs scratch, not-drawn result) are compared with the reference multi-board model; after a push the draw oracle of C05 runs on that board. A long-lived board: after a complete 4-ply walk from the start position (about 200 000 pushes and pops, over 70 000 distinct positions; and from a middlegame root: 4 million pushes, over 1.4 million distinct positions) on the board itself / on a fork of it, everything reported is unchanged and the knight shuffle played before the walk, repeated after it, is reported as a three-fold repetition. The forks an engine hands out (Engine.Board) on seven games incl. drawn ones: moves, take-backs and adjudication on them leave the engine's game untouched and vice versa. distinct_nontrivial = distinct canonical states (sorted model snapshots of all live boards)", depth)
 	roots := []c08root{
 		{"k7/p7/P7/8/8/7p/7P/7K w - - 0 1", among("h1g1", "g1h1", "a8b8", "b8a8"), "shuffle: repetition across forks"},
 		{"r3k2r/8/8/8/8/8/8/R3K2R w KQkq - 0 1", among("e1g1", "e1c1", "e8g8", "e8c8", "h1g1", "a8b8", "g1h1", "b8a8"), "castling flags"},
@@ -311,11 +311,23 @@ func checkC08(c *harness.Check) {
 // it reported before, and the game must go on as on a board that never saw the walk: the knight
 // shuffle played before the walk is repeated after it and the third occurrence must be reported.
 func heavyUse(c *harness.Check) {
-	shuffle := []string{"g1f3", "g8f6", "f3g1", "f6g8"}
+	heavyUseFrom(c, corpus.Initial, []string{"g1f3", "g8f6", "f3g1", "f6g8"}, false)
+	// a middlegame root: the same walk visits over 1.4 million distinct positions (4 million pushes) -
+	// past any round number a "this table has grown too large" guard might pick
+	heavyUseFrom(c, corpus.Kiwipete, []string{"c3b1", "b6c8", "b1c3", "c8b6"}, true)
+}
+
+func heavyUseFrom(c *harness.Check, root string, shuffle []string, boardOnly bool) {
 	for _, onFork := range []bool{false, true} {
+		if boardOnly && onFork {
+			continue
+		}
 		what := map[bool]string{false: "on the board itself", true: "on a fork of it"}[onFork]
-		b := bridge.NewBoard(corpus.Initial, 0)
-		g, _ := ref.GameFromFEN(corpus.Initial)
+		if root != corpus.Initial {
+			what += " (middlegame root)"
+		}
+		b := bridge.NewBoard(root, 0)
+		g, _ := ref.GameFromFEN(root)
 		play := func(bb *board.Board, t string) bool {
 			m, ok := bridge.FindImpl(bb.Position(), bb.Turn(), t)
 			return ok && bb.PushMove(m)
